@@ -303,7 +303,7 @@ inductive Res where
   | error                       -- "set complement cannot transitively depend on itself"
   | ok (sets : List (List Nat))  -- the terminals of every top-level set expression
   | fail
-deriving Repr
+deriving Repr, DecidableEq
 
 def setSpec (sg : SG) : Res :=
   match nullable sg.g with
